@@ -59,6 +59,8 @@ def in_bounds(h: str) -> bool:
     for ex in EXCLUDE_EXACT:
         if h == ex:
             return False
+    if EXCLUDE_NUMBER_DOT and h == "." and PRE.rstrip()[-1:].isdigit():
+        return False
     return True
 
 
